@@ -141,6 +141,7 @@ def run(ctx):
     ctx.rule("C18.R12", "the run splitter behind groupby and the indexed where (C17.R5: every run ends at the bisect-right of its first value, one definition)")
     c17.sub_lohis_runs(ctx, "C18.R12")
     c17.index_then_insert(ctx, "C18.R13")
+    c17.groupby_and_union_order(ctx, "C18.R14")
 
 
 def _table_of(expr):
@@ -539,6 +540,7 @@ def r9_always_filtered(ctx, rule="C18.R9"):
 
 
 CONTROLS = [
+    ("group keys read from the leading columns", "coba/results/core.py", M.replace_expr("Table.groupby", "self._indexes[:level]", "self._columns[:level]"), "C18.R14"),
     ("from_logged_envs indexes its empty tables first", "coba/results/core.py", M.insert_before("Result.from_logged_envs", lambda st: isinstance(st, ast.FunctionDef), "int_table.index('environment_id', 'learner_id', 'evaluator_id', 'index')"), "C18.R13"),
     ("run splitter tries the previous run's length first", "coba/results/core.py", M.replace_stmt("Table._sub_lohis", M.text_has("my_bisect_right"), "new_hi = lo + 1\nif col[new_hi - 1] != col[lo]: new_hi = my_bisect_right(col, col[lo], lo, hi)"), "C18.R12"),
     ("a single learner skips the finishing filter", RES, M.replace_expr("Result.raw_learners", "p", "p and len(self.learners) > 1", nth=0), "C18.R11"),
